@@ -195,6 +195,8 @@ def getPatternItem (ptn : Array UInt8) (pb : PB) : B PB := do
   else if b == 37 then do                                 -- '%'
     let (c, pb) ← next ptn pb
     if c == 102 then do                                   -- 'f'
+      -- `if pb.i >= len(pb.ptn) || pb.ptn[pb.i] != '['` (the index is guarded by the length test)
+      if ptn[pb.i]? != some 91 then throw .malformed
       let (s, pb) ← getCharClass ptn pb
       pure (emit pb ⟨s, .frontier⟩)
     else if c == 98 then do                               -- 'b'
